@@ -103,6 +103,14 @@ func init() {
 			s.assume(Ge(e, IntLit(0)))
 			return []*Term{Fresh("wd", SStr), e}
 		},
+		"strings.Join": func(vc *VC, s *State, call *ast.CallExpr, args []*Term) []*Term {
+			vc.prog.Assumed["strings.Join(elems, sep): pure; the result is at least (len(elems)-1)*len(sep) long"] = true
+			r := App("std.strings.Join", SStr, args...)
+			n := sliceLen(args[0])
+			// linear consequences only (no non-linear arithmetic): for n >= 2 the result contains sep at least once
+			s.assume(And(Ge(strLen(r), IntLit(0)), Implies(Ge(n, IntLit(2)), Ge(strLen(r), strLen(args[1])))))
+			return []*Term{r}
+		},
 		"strings.Split": func(vc *VC, s *State, call *ast.CallExpr, args []*Term) []*Term {
 			vc.prog.Assumed["strings.Split(s, sep) with non-empty sep: at least one piece; the last piece is s after the last occurrence of sep (s itself if sep does not occur)"] = true
 			T := types.NewSlice(types.Typ[types.String])
